@@ -574,7 +574,7 @@ def _run(ctx, lean_ok, workdir):
     pred_stabilize(ctx, viol, D5_CAST, s, {'cast': 'fixed 4-level cast with a light deepest level'})
     b.add('stabilize', req('Profile.stabilize', 4, D5_CAST), {'k': 4, 'shape': D5_CAST.shape, 'real': s,
                                                              'origin': 'fixed 4-level cast', 'near_tie': False})
-    ncast = ctx.n(40, 700)
+    ncast = ctx.n(60, 700)
     for ci in range(ncast):
         rng = random.Random(ctx.rng.getrandbits(60))
         cast = sp.make_cast(rng, 3, 2000)
